@@ -73,21 +73,28 @@ def task_verlet(arg):
     offsets = [np.array([[1.0, 0.0, 0.0], [0.0, -1.0, 0.5], [0.3, 0.3, -1.0]]), np.array([[-0.5, 1.0, 0.2], [1.0, 1.0, 1.0], [0.0, 0.0, 0.0]]), np.zeros((3, 3))]
     for masses, off, zs in itertools.product([1.0, 63.5, [1.0, 63.5, 12.0]], offsets, (1.0, -1.7)):
         # (a) reversibility
-        for dt, steps, ac in itertools.product(arg["dts"], arg["steps"], (True, False)):
+        for dt, steps, ac, cons in itertools.product(arg["dts"], arg["steps"], (True, False), (False, True)):
             atoms = start_atoms(pot, masses, off, zs)
+            if cons:
+                if ac or steps == 20:
+                    continue  # with constraint application the frozen atom's momentum is projected out (C12's subject)
+                from ase.constraints import FixAtoms
+
+                # a constraint is present but the integrator is told not to apply it: plain dynamics
+                atoms.set_constraint(FixAtoms(indices=[0]))
             x0, p0 = atoms.positions.copy(), atoms.get_momenta().copy()
             integ = Verlet(dt=dt, max_steps=steps, apply_constraints=ac)
             ctx = Ctx(atoms)
             integ.integrate(ctx)
             x1 = atoms.positions.copy()
-            atoms.set_momenta(-atoms.get_momenta())
+            atoms.set_momenta(-atoms.get_momenta(), apply_constraint=False)
             integ.integrate(ctx)
             counters["evaluations"] += 1
             counters["nontrivial"] += 1
             moved = np.abs(x1 - x0).max()
             ex = np.abs(atoms.positions - x0).max() / max(1e-12, np.abs(x0).max())
             ep = np.abs(-atoms.get_momenta() - p0).max() / max(1e-12, np.abs(p0).max())
-            where = f"pot={pot} masses={masses} dt={dt}fs steps={steps} apply_constraints={ac}"
+            where = f"pot={pot} masses={masses} dt={dt}fs steps={steps} apply_constraints={ac}" + (" (FixAtoms present)" if cons else "")
             if moved == 0:
                 V("C14/verlet/does-not-move", where)
             if ex > 1e-9 or ep > 1e-9:
